@@ -1,7 +1,7 @@
 """C09 - Snapshot files round-trip: what is written is what is read back.
 
 Parts (one shard runs one part):
-  rle    every string over {ED,00,01} of length 1..10 through the real Z80._make_z80_ram_block, both block forms (exhaustive)
+  rle    every string over {ED,00,01} of length 1..12 (thorough 1..13) through the real Z80._make_z80_ram_block, both block forms (exhaustive)
   runs   runs of every byte value / of ED of every length 1..600 with ED and other bytes directly before and after (codec level)
   snap   random machine x RAM image x registers x state through the real write_snapshot (.z80 and .szx), read back by
          Snapshot.get and by decoders written from the format texts; cross-format identity
@@ -22,9 +22,9 @@ ID = 'C09'
 NEEDS_C = False
 LEVEL = 'exploration'
 EXHAUSTIVE = False
-EXHAUSTIVE_NOTE = ('the Z80 run-length coder is enumerated completely for all strings over {0xED,0x00,0x01} of length 1..10 (88 572 strings) in both '
+EXHAUSTIVE_NOTE = ('the Z80 run-length coder is enumerated completely for all strings over {0xED,0x00,0x01} of length 1..12 (797 160 strings; 1..13 = 2 391 483 in the thorough tier) in both '
                    'block forms (version 1 with end marker, version 2/3 with length header); everything else is sampled')
-RULE = ('(rle) every string over {ED,00,01} of length 1..10 x {v1 block, v2/3 block}, non-trivial when it contains ED or a run of >= 5; '
+RULE = ('(rle) every string over {ED,00,01} of length 1..12 (thorough: 1..13) x {v1 block, v2/3 block}, non-trivial when it contains ED or a run of >= 5; '
         '(runs) value x run length x bytes directly before/after, distinct by the string; '
         '(snap/sweep) machine {48K,128K,+2} x RAM image style x register values x state attributes x {.z80,.szx}, non-trivial when the RAM holds an ED byte '
         'and a run of >= 5 equal bytes or when a swept field is off its default, distinct by hash of (machine, RAM, register specs, state specs); '
@@ -39,7 +39,7 @@ ASSUMPTIONS = ['register and state values are generated inside their documented 
                'bin2sna is compared against its own output without the extra options (defaults such as I, IY are not modelled), except for what commands.rst '
                'documents: border 7, SP = PC = ORG, RAM = file at ORG',
                'a Z80 version 1 file cannot hold PC=0; such cases are skipped']
-MIN_NONTRIVIAL = {'quick': 200000, 'thorough': 600000}
+MIN_NONTRIVIAL = {'quick': 1500000, 'thorough': 6000000}
 
 FRAME = {'48K': 69888, '128K': 70908, '+2': 70908}
 MACHINES = ['48K', '128K', '+2']
@@ -297,12 +297,17 @@ def check_block(shard, z, data, rp_extra, forms=(True, False)):
             ok = False
     return ok
 
+RLE_MAXLEN = {'quick': 12, 'thorough': 13}
+
+def rle_total(tier):
+    return (3 ** (RLE_MAXLEN[tier] + 1) - 3) // 2
+
 def run_rle(shard, spec):
     z = _z80_instance()
     alphabet = (0xED, 0x00, 0x01)
     first = alphabet[spec['first']]
     evals = nontrivial = 0
-    for n in range(1, 11):
+    for n in range(1, RLE_MAXLEN[shard.tier] + 1):
         for tail in itertools.product(alphabet, repeat=n - 1):
             data = bytes((first,) + tail)
             check_block(shard, z, data, {'why': 'rle'})
@@ -1146,8 +1151,8 @@ def finalize(agg, tier):
               'events:reader_vs_spec', 'events:sim_roundtrips'):
         if not c.get(k):
             probs.append('monitor %s observed nothing' % k)
-    if c.get('observed:rle_strings_enumerated', 0) != 88572:
-        probs.append('run-length enumeration incomplete: %d of 88572 strings' % c.get('observed:rle_strings_enumerated', 0))
+    if c.get('observed:rle_strings_enumerated', 0) != rle_total(tier):
+        probs.append('run-length enumeration incomplete: %d of %d strings' % (c.get('observed:rle_strings_enumerated', 0), rle_total(tier)))
     if c.get('observed:value_length_pairs', 0) != 256 * 600:
         probs.append('runs: %d of %d (value, length) pairs visited' % (c.get('observed:value_length_pairs', 0), 256 * 600))
     h = agg['hists']
@@ -1193,7 +1198,7 @@ def replay(shard, rp):
 
 TECHNIQUE = ('contracts on the real Z80 run-length coder (exhaustive over short strings) and a boundary recorder on write_snapshot / bin2sna.main / snapmod.main, '
              'decided by Z80 v1/v2/v3 and ZX-State decoders written from the format texts, cross-format identity and a small model of the option semantics')
-LEVEL_TEXT = ('Every string over {ED,00,01} of length 1..10 and runs of every byte value (ED: every length 1..600, with ED directly before/after) go through the real '
+LEVEL_TEXT = ('Every string over {ED,00,01} of length 1..12 and runs of every byte value (ED: every length 1..600, with ED directly before/after) go through the real '
               'Z80._make_z80_ram_block in both block forms and must come back from a decoder written from the Z80 format text and from the real reader. Generated '
               '48K/128K/+2 states (hostile RAM images, all registers, R bit 7, T-states across and far beyond the frame, paging and AY state) are written by the real '
               'write_snapshot as .z80 and .szx and must read back field by field through Snapshot.get, identically in both formats, and through the spec decoders, '
